@@ -39,6 +39,10 @@ DIMS = {
     'grids': ['same', 'different', 'same-ends', 'higher-start', 'lower-end'],
     # abundance of the first active gas: absent everywhere, absent below and present aloft, present with a gap
     'h2o': [['const', 1e-4], ['const', 0.0], ['array', [0.0, 0.0, 2e-4, 2e-4]], ['array', [2e-4, 0.0, 0.0, 2e-4]]],
+    # the type the coefficients are stored with in the k-table files
+    'kdtype': ['float64', 'float32'],
+    # temperature interpolation of the tables (the one global setting, for cross-sections and k-tables alike)
+    'mode': ['linear', 'exp'],
 }
 MAGS = {'thin': (1e-33, None), 'tau1': (1e-27, None), 'mixed': (1.0, [1e-33, 1e-27, 1e-24, 1e-18]),
         'sat': (1e-18, None)}
@@ -95,22 +99,30 @@ def run(case, ktab):
     from taurex.cache import OpacityCache
     fx.reset_caches()
     tabs = base_tables(case)
+    f32 = case.get('kdtype') == 'float32'
+    if f32:
+        # the numbers of the tables are single-precision numbers (stored as such in the k-table files, handed over as
+        # the very same values in double precision to the cross-section run)
+        tabs = dict((mol, t.astype(np.float32).astype(float)) for mol, t in tabs.items())
     if ktab:
         k = dict((mol, t[..., None] * gmult(case)[None, None, None, :]) for mol, t in tabs.items())
+        if f32:
+            k = dict((mol, kk.astype(np.float32).astype(float)) for mol, kk in k.items())      # the numbers as stored
         from taurex.cache import GlobalCache
         from taurex.cache.ktablecache import KTableCache
         import os
         d = fx.fresh_dir('ktables')
         for mol, kk in k.items():
-            fx.write_pickle_ktable(os.path.join(d, '%s.pickle' % mol), mol, grid_of(case, mol), TG, PG, kk, case['gw'])
-        GlobalCache()['xsec_interpolation'] = 'linear'
+            fx.write_pickle_ktable(os.path.join(d, '%s.pickle' % mol), mol, grid_of(case, mol), TG, PG, kk, case['gw'],
+                                   kdtype=np.float32 if f32 else float)
+        GlobalCache()['xsec_interpolation'] = case.get('mode', 'linear')
         GlobalCache()['opacity_method'] = 'ktables'
         KTableCache().set_ktable_path(d)
         KTableCache().clear_cache()
         tabs = k
     else:
         for mol, t in tabs.items():
-            OpacityCache().add_opacity(fx.TinyOp(mol, grid_of(case, mol), TG, PG, t))
+            OpacityCache().add_opacity(fx.TinyOp(mol, grid_of(case, mol), TG, PG, t, case.get('mode', 'linear')))
     m = fx.build_model(spec_of(case))
     grid, spec, trans, _ = m.model()
     return m, np.asarray(grid, float), np.asarray(spec, float), np.asarray(trans, float), tabs
@@ -119,11 +131,24 @@ def run(case, ktab):
 def case_fn(case):
     from taurex.util.scattering import rayleigh_sigma_from_name
     r = core.R(case)
+    # single-precision k-table files are interpolated in single precision (the inputs' own precision): every comparison
+    # of such a case is made at that precision
+    SLK = 1e-5 if case.get('kdtype') == 'float32' else 1e-9
+    r.rtol_floor = 1e-5 if case.get('kdtype') == 'float32' else 0.0
     gw = np.array(case['gw'])
     deg = case['spread'] == 1.0 or len(gw) == 1
     tag = '%s/%s' % (case['kind'], 'degenerate' if deg else 'spread')
     mk, gk, sk, tk, ktabs = run(case, True)
     r.eq(gk, WN, 'native-grid', 'grid/ktables', rtol=0)
+    # the sources that are not molecular absorption know nothing of the opacity method: evaluated alone through the
+    # per-source entry point they give what they give in cross-section mode (taken further down, after the switch)
+    others_k = None
+    if any(c_ != 'abs' for c_ in case['contribs']):
+        try:
+            _, cdk = mk.model_contrib()
+            others_k = dict((n_, np.array(v_[0], float)) for n_, v_ in cdk.items() if n_ != 'Absorption')
+        except Exception as e:
+            r.check(False, 'no-exception', 'exception/%s/model_contrib/ktables' % type(e).__name__, exc=repr(e))
     N = mk.nLayers
     wn = np.array(WN)
     T = np.asarray(mk.temperatureProfile, float)
@@ -135,7 +160,7 @@ def case_fn(case):
     for mol in mk.chemistry.activeGases:
         chi = np.asarray(mk.chemistry.get_gas_mix_profile(mol), float)
         for k in range(N):
-            o = opac.interp_opacity(ktabs[mol], TG, PG, T[k], P[k], 'linear')
+            o = opac.interp_opacity(ktabs[mol], TG, PG, T[k], P[k], case.get('mode', 'linear'))
             gm = np.array(grid_of(case, mol))
             if len(gm) != len(wn) or np.any(gm != wn):
                 o = np.array([np.interp(wn, gm, o[:, g]) for g in range(o.shape[1])]).T
@@ -161,10 +186,10 @@ def case_fn(case):
         r.check(bool(np.all(tk >= 0) and np.all(tk <= 1)), 'range-0-1', 'range/' + tag, got=tk)
         T_avg = np.exp(-np.sum(tau_g * gw, axis=-1) - tau_o)
         lic = np.array([tau_tot[l].min() > 10 for l in range(N)])
-        r.check(bool(np.all(tk[~lic] >= T_avg[~lic] * (1 - 1e-9) - 1e-300)), 'jensen', 'jensen/' + tag)
+        r.check(bool(np.all(tk[~lic] >= T_avg[~lic] * (1 - SLK) - 1e-300)), 'jensen', 'jensen/' + tag)
         for l in range(N):
             if lic[l]:
-                r.check(bool(np.all(tk[l] <= math.exp(-10) * (1 + 1e-9)) and np.all(tk[l] >= T_ref[l] * (1 - 1e-9) - 1e-300)),
+                r.check(bool(np.all(tk[l] <= math.exp(-10) * (1 + SLK)) and np.all(tk[l] >= T_ref[l] * (1 - SLK) - 1e-300)),
                         'ck-transmittance-saturated', 'trans/saturated/' + tag, layer=l, got=tk[l], ref=T_ref[l])
             else:
                 r.eq(tk[l], T_ref[l], 'ck-transmittance', 'trans/%s/%s' % (tag, case['mag']), layer=l, atol=1e-15)
@@ -172,7 +197,7 @@ def case_fn(case):
         T_lo = T_ref.copy()
         T_lo[lic] = math.exp(-10)
         d_lo = rt.transit_depth(T_lo, Rp, Rs, zb[:-1], dz)
-        r.check(bool(np.all(sk <= d_ref * (1 + 1e-9)) and np.all(sk >= d_lo * (1 - 1e-9))), 'ck-depth',
+        r.check(bool(np.all(sk <= d_ref * (1 + SLK)) and np.all(sk >= d_lo * (1 - SLK))), 'ck-depth',
                 'depth/%s/%s' % (tag, case['mag']), got=sk, ref=d_ref)
         if np.any((T_ref > math.exp(-10)) & (T_ref < 1 - 1e-12)) and not deg:
             r.nontrivial = True
@@ -186,22 +211,28 @@ def case_fn(case):
             scale = (Rp / Rs) ** 2 / rt.planck_pi(wn, mk.star.temperature)
         else:
             scale = 0.5 * Rp ** 2 / (mk.star.distance * 3.08567758e16) ** 2
-            if not np.all(np.abs(sk - F * scale) <= L * scale + 1e-9 * F * scale):
+            if not np.all(np.abs(sk - F * scale) <= L * scale + SLK * F * scale):
                 scale = 2 * scale       # prefactor convention 1 instead of 1/2 (see C02)
-        r.check(bool(np.all(np.abs(sk - F * scale) <= L * scale + 1e-9 * np.abs(F * scale))), 'ck-emission',
+        r.check(bool(np.all(np.abs(sk - F * scale) <= L * scale + SLK * np.abs(F * scale))), 'ck-emission',
                 'emission/%s/%s' % (tag, case['mag']), got=sk, want=F * scale, licence=L * scale)
         if not deg and np.any((dtau_g.min(axis=-1) > 1e-6) & (dtau_g.min(axis=-1) < 10)):
             r.nontrivial = True
     r.observe(sk)
+    if others_k:
+        mx_ = run(case, False)[0]
+        _, cdx = mx_.model_contrib()
+        for n_, fk in sorted(others_k.items()):
+            if r.check(n_ in cdx, 'other-sources-alone', 'others/missing/' + n_):
+                r.eq(fk, np.array(cdx[n_][0], float), 'other-sources-alone', 'others/%s/%s' % (case['kind'], n_), rtol=1e-9)
     if deg:
         mx, gx, sx, tx, _ = run(case, False)
         r.eq(gk, gx, 'same-grid', 'degenerate/grid', rtol=0)
         if case['kind'] == 'transmission':
-            r.eq(tk, tx, 'degenerate-equals-xsec', 'degenerate/trans/' + case['kind'], atol=1e-14)
-            r.eq(sk, sx, 'degenerate-equals-xsec', 'degenerate/spectrum/' + case['kind'])
+            r.eq(tk, tx, 'degenerate-equals-xsec', 'degenerate/trans/' + case['kind'], rtol=1e-12, atol=1e-14)
+            r.eq(sk, sx, 'degenerate-equals-xsec', 'degenerate/spectrum/' + case['kind'], rtol=1e-13)
         else:
             # the emission clamp at tau>=10 is applied per opacity mode; both runs lie within the licence
-            r.check(bool(np.all(np.abs(sk - sx) <= 2 * L * scale + 1e-9 * np.abs(sx))), 'degenerate-equals-xsec',
+            r.check(bool(np.all(np.abs(sk - sx) <= 2 * L * scale + SLK * np.abs(sx))), 'degenerate-equals-xsec',
                     'degenerate/spectrum/' + case['kind'], got=sk, want=sx, licence=L * scale)
         r.nontrivial = r.nontrivial or len(gw) > 1
     return r
